@@ -3,6 +3,7 @@ use serde::{Deserialize, Serialize};
 
 use crate::core::{Error, Method, PeriodType, Source, OHLCV};
 use crate::core::{IndicatorConfig, IndicatorInstance, IndicatorResult};
+use crate::helpers::Peekable;
 use crate::methods::{ReversalSignal, HMA};
 
 /// Hull Moving Average indicator
@@ -57,11 +58,11 @@ impl IndicatorConfig for HullMovingAverage {
 		let cfg = self;
 		let src = candle.source(cfg.source);
 
-		Ok(Self::Instance {
-			hma: HMA::new(cfg.period, &src)?,
-			pivot: ReversalSignal::new(cfg.left, cfg.right, &src)?,
-			cfg,
-		})
+		let hma = HMA::new(cfg.period, &src)?;
+		// the pivot detector is fed the moving average, which may differ from `src` by a rounding error even on a constant input
+		let pivot = ReversalSignal::new(cfg.left, cfg.right, &hma.peek())?;
+
+		Ok(Self::Instance { hma, pivot, cfg })
 	}
 
 	fn validate(&self) -> bool {
